@@ -8,7 +8,7 @@ from rules.exec_rules import CONCURRENCY, nested
 from sa.cfg import CFG, no_exc
 from sa.effects import is_fresh_expr, write_sites
 from sa.loader import (
-    AnalysisError, FuncDef, Repo, ancestors, call_name, last_attr, parent, qualname_of, unparse, walk_body,
+    AnalysisError, FuncDef, Repo, ancestors, call_name, enclosing_function, last_attr, parent, qualname_of, unparse, walk_body,
 )  # fmt: skip
 from sa.report import Check, node_text
 from sa.resolve import ClassIndex
@@ -820,3 +820,75 @@ def error_keeps_items(check: Check, repo: Repo, rule: str = "ERROR-KEEPS-ITEMS")
     check.ob(rule, h, "StreamItemQueue._run: the failure handler cancels no queued item", not cancels,
              f"no .cancel() reachable (followed: {sorted(seen) or 'no helper'})" if not cancels else
              "; ".join(f"{w}: `{unparse(c)[:50]}` (line {c.lineno})" for w, c in cancels[:2]) + " cancels items that must still be delivered before the failure")
+
+
+def field_lookup_by_name(check: Check, repo: Repo, rule: str = "FIELD-LOOKUP-NAME") -> None:
+    from sa.tables import inline_locals
+
+    check.rule(
+        rule,
+        "a field definition is looked up by the field's *name*, never by its response key: at every "
+        "`<schema>.get_field(<parent type>, <x>)` of the execution package <x> - locals expanded - is read from a field "
+        "node's `.name.value`. The grouped field set is keyed by response name (alias if there is one), so taking the "
+        "key for the lookup works until a field is aliased: `subscription { latest: reading { ... } }` would answer 'The "
+        "subscription field 'latest' is not defined.' for a valid operation",
+    )
+    n = 0
+    for mod in repo.package_modules("execution"):
+        for c in ast.walk(mod.tree):
+            if not (isinstance(c, ast.Call) and isinstance(c.func, ast.Attribute) and c.func.attr == "get_field" and len(c.args) == 2):
+                continue
+            fn = enclosing_function(c)
+            arg = inline_locals(c.args[1], fn) if fn is not None and not isinstance(fn, ast.Lambda) else c.args[1]
+            n += 1
+            ok = any(isinstance(a, ast.Attribute) and a.attr == "value" and isinstance(a.value, ast.Attribute) and a.value.attr == "name" for a in ast.walk(arg))
+            check.ob(rule, c, f"{qualname_of(c)}: {unparse(c)[:60]}", ok,
+                     f"`{unparse(arg)[:60]}`: the name of a field node" if ok else f"`{unparse(arg)[:60]}` is not a field node's name.value (a response key?)")
+    if n < 2:
+        raise AnalysisError("FIELD-LOOKUP-NAME: get_field calls not found")
+
+
+def stream_predicate(check: Check, repo: Repo, rule: str = "STREAM-PREDICATE") -> None:
+    check.rule(
+        rule,
+        "whether what the source resolver returned is an event stream is decided by one predicate: in subscribe() every "
+        "conditional that selects map_source_to_response_event(...) tests `<executor>.is_async_iterable(<value>)` - the "
+        "configurable predicate that assert_event_stream's default mirrors (an object with __aiter__). A narrower test "
+        "(isinstance(x, AsyncIterator)) lets an async *iterable* that is not its own iterator through assert_event_stream "
+        "and then returns the raw source: the consumer receives event payloads instead of one response per event",
+    )
+    fn = repo.func("execution.execute", "subscribe")
+    sel = []
+    for c in ast.walk(fn):
+        if isinstance(c, ast.Call) and call_name(c).split(".")[-1] == "map_source_to_response_event":
+            for a in ancestors(c):
+                if isinstance(a, (*FuncDef, ast.Lambda)):
+                    break
+                if isinstance(a, (ast.IfExp, ast.If)):
+                    sel.append(a)
+                    break
+    if not sel:
+        raise AnalysisError("subscribe: selection of map_source_to_response_event not found")
+    for x in sel:
+        t = x.test
+        ok = isinstance(t, ast.Call) and isinstance(t.func, ast.Attribute) and t.func.attr == "is_async_iterable"
+        check.ob(rule, x, f"subscribe: mapped when `{unparse(t)[:60]}`", ok,
+                 "the executor's stream predicate" if ok else "another test than <executor>.is_async_iterable(...) decides what counts as an event stream")
+
+
+def per_event_pure(check: Check, repo: Repo, rule: str = "PER-EVENT-PURE") -> None:
+    check.rule(
+        rule,
+        "an event payload is data: execute_subscription_event and the per-event callback of "
+        "map_source_to_response_event contain no `raise` - whatever the source yields (an exception object included) "
+        "becomes the root value of one execution and produces one response. Raising a payload ends the response stream "
+        "and closes the source while it still has events: fewer responses than events",
+    )
+    sites = [("execution.execute", "execute_subscription_event")]
+    fn2 = repo.func("execution.execute", "map_source_to_response_event")
+    inner = [f for f in ast.walk(fn2) if isinstance(f, (ast.AsyncFunctionDef, ast.FunctionDef)) and f is not fn2]
+    fns = [repo.func(*s) for s in sites] + inner
+    for f in fns:
+        raises = [r for r in walk_body(f) if isinstance(r, ast.Raise)]
+        check.ob(rule, f, f"{qualname_of(f) or f.name}: no raise on the per-event path", not raises,
+                 "none" if not raises else f"`{unparse(raises[0])[:50]}` (line {raises[0].lineno}): a payload / per-event condition ends the whole stream")
